@@ -92,6 +92,8 @@ def run_impl(c):
         return vf.try_impl(f)
     if k == "mul_int":
         n = bool(c["n"]) if c.get("as_bool") else c["n"]
+        if c.get("huge"):
+            n = n * (10**4400 + 7)    # too long for Python to print; written as a Coq expression in to_coq
         return vf.try_impl(lambda: _ticks((n * _td(c["a"])) if c["rev"] else (_td(c["a"]) * n), TD))
     if k == "floor_int":
         return vf.try_impl(lambda: _ticks(_td(c["a"]) // c["n"], TD))
@@ -192,7 +194,9 @@ def _ratio(c):
         return "{| r_num := %s; r_e2 := %s; r_e10 := 0 |}" % (vf.zc(num), vf.zc(-(den.bit_length() - 1)))
     sign, digits, exp = Decimal(c["x"]).as_tuple()
     num = int("".join(map(str, digits)) or "0") * (-1 if sign else 1)
-    return "{| r_num := %s; r_e2 := 0; r_e10 := %s |}" % (vf.zc(num), vf.zc(exp))
+    # 10^400 already puts any non-zero product beyond every range here: larger exponents are clipped for the oracle
+    # (same verdict: overflow iff the TimeDelta is non-zero), which keeps the Coq arithmetic small
+    return "{| r_num := %s; r_e2 := 0; r_e10 := %s |}" % (vf.zc(num), vf.zc(min(exp, 400)))
 
 
 def to_coq(c, r):
@@ -205,6 +209,8 @@ def to_coq(c, r):
     if k == "divmod_td":
         return "DivmodTD %s %s %s" % (z(c["a"]), z(c["b"]), vf.resc(r, lambda v: "(%s, %s)" % (z(v[0]), z(v[1]))))
     if k == "mul_int":
+        if c.get("huge"):
+            return "MulInt %s (%s * (10 ^ 4400 + 7)) %s %s" % (z(c["a"]), z(c["n"]), b(c["rev"]), vf.resc(r))
         return "MulInt %s %s %s %s" % (z(c["a"]), z(int(bool(c["n"])) if c.get("as_bool") else c["n"]), b(c["rev"]), vf.resc(r))
     if k == "floor_int":
         return "FloorInt %s %s %s" % (z(c["a"]), z(c["n"]), vf.resc(r))
@@ -384,7 +390,15 @@ def _mixed_cases(rng, n):
 
 def gen_cases(rng, tier):
     n = 450 if tier == "quick" else 12000
-    return _int_cases(_pairs(rng, n), rng) + _mixed_cases(rng, 1500 if tier == "quick" else 40000)
+    # a factor too long for Python to print (more than 4300 digits): OverflowError like any other out-of-range product
+    huge = [{"k": "mul_int", "a": a, "n": sgn, "huge": True, "rev": rev}
+            for a, sgn, rev in ((1, 1, False), (-5, -1, True), (MAX128, 1, True), (0, -1, False))]
+    # a Decimal factor at the top of the Decimal exponent range: the product leaves it (decimal.Overflow inside the
+    # implementation) - for the caller an out-of-range product like any other; zero times it is zero
+    huge += [{"k": "mul_rat", "ty": "Decimal", "a": a, "x": x, "rev": rev}
+             for a, x, rev in ((10 * T64, "9e999999", False), (-3 * T64, "9e999999", True), (MAX128, "-9e999999", False),
+                               (0, "9e999999", False), (25 * T64, "-9.5e999999", True))]
+    return _int_cases(_pairs(rng, n), rng) + _mixed_cases(rng, 1500 if tier == "quick" else 40000) + huge
 
 
 def search_cases(rng, literals, tier):
